@@ -303,49 +303,50 @@ def endTxn (s : State) (v5 : Bool) (k epoch : Int) (commit : Bool) : State × In
         (setProd s1 k pr1, 0, pr1.epoch)
       else (s1, 0, -1)
 
+/-- `pids.get` (with the implicit partition addition of produce v12+): the producer state whose window is used, if any. -/
+def pidsGet (s : State) (v12 : Bool) (k : Int) (p : Nat) (tx : Bool) : State × Option Prod :=
+  match getProd s k with
+  | none => (s, none)
+  | some pr =>
+    if pr.txnl && !pr.txParts.contains p then
+      if tx && v12 then
+        let pr1 := maybeStart s.now { pr with txParts := pr.txParts ++ [p] }
+        (setProd s k pr1, some pr1)
+      else (s, none)
+    else (s, some pr)
+
+/-- `getOrCreateNonTx` as `handleProduce` calls it. -/
+def getOrCreate (s : State) (k epoch : Int) (tx : Bool) (found : Option Prod) : State × Option Prod :=
+  if !tx && found.isNone && epoch != -1 then
+    match getProd s k with
+    | some pr => (s, some pr)
+    | none => (setProd s k { epoch := epoch }, some { epoch := epoch })
+  else (s, found)
+
 /-- `handleProduce` for one batch: (state, error code, BaseOffset, LogStartOffset) as in the response.
-`v12` = request version ≥ 12 (implicit partition addition). `pid < 0` = no producer id. -/
+`v12` = request version ≥ 12 (implicit partition addition). `k < 0` = no producer id. -/
 def produce (s : State) (v12 : Bool) (k epoch seq n nbytes : Int) (p : Nat) (tx : Bool) : State × Int × Int × Int :=
   match s.parts[p]? with
   | none => (s, 3, 0, -1)
   | some pd =>
-    let b : Batch := ⟨0, n, k, epoch, seq, tx, false, false, nbytes⟩
     if tx && k < 0 then (s, 49, 0, -1)
-    else if k < 0 then (setPart s p (pushBatch pd b tx), 0, pd.hwm, pd.logStart)
+    else if k < 0 then (setPart s p (pushBatch pd ⟨0, n, k, epoch, seq, tx, false, false, nbytes⟩ tx), 0, pd.hwm, pd.logStart)
     else
-      -- pids.get (with the implicit addition of v12+)
-      let (s1, found, haveWin) : State × Option Prod × Bool :=
-        match getProd s k with
-        | none => (s, none, false)
-        | some pr =>
-          if pr.txnl && !pr.txParts.contains p then
-            if tx && v12 then
-              let pr1 := maybeStart s.now { pr with txParts := pr.txParts ++ [p] }
-              (setProd s k pr1, some pr1, true)
-            else (s, none, false)
-          else (s, some pr, true)
-      -- getOrCreateNonTx
-      let (s2, found2, haveWin2) : State × Option Prod × Bool :=
-        if !tx && found.isNone && epoch != -1 then
-          match getProd s1 k with
-          | some pr => (s1, some pr, true)
-          | none => let pr : Prod := { epoch := epoch }; (setProd s1 k pr, some pr, true)
-        else (s1, found, haveWin)
-      match found2 with
-      | none => (s2, 48, 0, -1)     -- txnal without a window, or epoch ≠ -1 without producer state
+      let r1 := pidsGet s v12 k p tx
+      let r2 := getOrCreate r1.1 k epoch tx r1.2
+      match r2.2 with
+      | none => (r2.1, 48, 0, -1)     -- transactional without a window, or epoch ≠ -1 without producer state
       | some pr =>
-        if pr.inTx && !tx then (s2, 48, 0, -1)
-        else if tx && !haveWin2 then (s2, 48, 0, -1)
-        else if epoch < pr.epoch then (s2, 47, 0, -1)
+        if pr.inTx && !tx then (r2.1, 48, 0, -1)
+        else if epoch < pr.epoch then (r2.1, 47, 0, -1)
         else
           let pr1 := if epoch > pr.epoch then { pr with epoch := epoch } else pr
-          let (w', r) := push Model.C29.seqMod (getWin pr1 p) epoch seq n pd.hwm
-          let pr2 := setWin pr1 p w'
-          let s3 := setProd s2 k pr2
-          match r with
+          let wr := push Model.C29.seqMod (getWin pr1 p) epoch seq n pd.hwm
+          let s3 := setProd r2.1 k (setWin pr1 p wr.1)
+          match wr.2 with
           | .reject => (s3, 45, 0, -1)
           | .dup off => (s3, 0, off, -1)
-          | .accept => (setPart s3 p (pushBatch pd b tx), 0, pd.hwm, pd.logStart)
+          | .accept => (setPart s3 p (pushBatch pd ⟨0, n, k, epoch, seq, tx, false, false, nbytes⟩ tx), 0, pd.hwm, pd.logStart)
 
 /-! ### Fetch -/
 
